@@ -6,8 +6,10 @@
 // CPU-time measurement of DESIGN.md section 4 / C07 "Tie / search".
 //
 // case forms     (0 x<decoder-name> x<input>)   decoder call; observation (0) returned / (2) panicked
-//                (1 x<helper-name> a1 ...)      translated helper; observation (0 value) / (2)
-//                (3 x<family-name>)             timing of one family at 8/16/32/64 KiB; observation (0)
+//
+//	(2 x<decoder-name> x<input>)   decoder call with a model; observation (0) value / (1) error / (2) panic
+//	(1 x<helper-name> a1 ...)      translated helper; observation (0 value) / (2)
+//	(3 x<family-name>)             timing of one family at 8/16/32/64 KiB; observation (0)
 package websocket
 
 import (
@@ -25,12 +27,13 @@ import (
 const vC07Max = 65536
 
 type vC07Dec struct {
-	name string
-	run  func(b []byte) bool  // calls the entry point; true = it returned an error
-	gen  func(r *vRng) []byte // a valid or nearly valid input (nil: none)
-	max  int                  // largest input (0 = vC07Max)
+	name         string
+	run          func(b []byte) bool  // calls the entry point; true = it returned an error
+	gen          func(r *vRng) []byte // a valid or nearly valid input (nil: none)
+	max          int                  // largest input (0 = vC07Max)
 	thoroughOnly bool
-	sweep int                 // > 0: not fuzzed but run on ALL inputs of exactly this many bytes (enum helpers without a model)
+	modelled     bool // an executable model exists (Model/Total.v decoders): case tag 2, observation = outcome class
+	sweep        int  // > 0: not fuzzed but run on ALL inputs of exactly this many bytes (enum helpers without a model)
 }
 
 type vC07Helper struct {
@@ -310,6 +313,12 @@ func (dr *vC07Driver) runDec(d *vC07Dec, b []byte, kind string) {
 		obs = vPanicObs()
 	}
 	c := vL(vZ(0), vS(d.name), vB(b))
+	if d.modelled {
+		c = vL(vZ(2), vS(d.name), vB(b))
+		if o.class == 1 {
+			obs = vL(vZ(1))
+		}
+	}
 	nontrivial := o.class == 0 || (len(b) >= 2 && kind != "random" && kind != "sparse" && kind != "head+zeros" && kind != "")
 	idx := k.record(c, obs, nontrivial)
 	k.count("decoder", d.name)
@@ -457,8 +466,8 @@ func (dr *vC07Driver) replay(c vSx) {
 	}
 	name := string(c.l[1].b)
 	switch c.l[0].int() {
-	case 0:
-		if d := dr.dec(name); d != nil && len(c.l) == 3 && c.l[2].isBytes() {
+	case 0, 2:
+		if d := dr.dec(name); d != nil && len(c.l) == 3 && c.l[2].isBytes() && d.modelled == (c.l[0].int() == 2) {
 			dr.runDec(d, c.l[2].b, "")
 			return
 		}
